@@ -427,7 +427,7 @@ func depthValues(L int) []int64 {
 
 func TestCheck(t *testing.T) {
 	r := vp.New("C01", "model_checking",
-		"configurations: chain length L x entry point (queried head h, explicit head h, announce of h, for every h) x latest-sync state (none, every index, via SetLatestSync or WithLastKnownSync) x stop (none, every index, foreign CID) x resync x depth limits (subscriber, first-sync, per-call; each in {unset, -1, 1, L-1, L, L+1}, at most two set at once) x segment size (disabled, 1..L+1, subscriber-wide or per-call) x every subset of pre-stored blocks, factored as A(what) x B(depth) with two 'how' settings, A x C(how) with two depth settings; plus a boundary sweep on chains of 5-6 (quick) / 5-8 (thorough) ads: every segment size 1..L+1 x every depth limit 1..L+1 of each kind x stop {none, oldest, second-oldest} x entry point x {the harness's own hook, the library's MakeGeneralBlockHook} choosing the next segment; entries chains: M x start x {SyncEntries, SyncOneEntry, SyncHAMTEntries} x depth limits x segment size x pre-stored subsets; the all-links entry point also on a DAG with fan-out (2 spine blocks with 2 leaves each) x 5 segment sizes x all 64 pre-stored subsets. Every configuration runs the real subscriber and publisher and is compared with an integer reference model. states = distinct base configurations; transitions = hook calls + requests observed; traces = executions.",
+		"configurations: chain length L x entry point (queried head h, explicit head h, announce of h, for every h) x latest-sync state (none, every index, via SetLatestSync or WithLastKnownSync) x stop (none, every index, foreign CID) x resync x depth limits (subscriber, first-sync, per-call; each in {unset, -1, 1, L-1, L, L+1}, at most two set at once) x segment size (disabled, 1..L+1, subscriber-wide or per-call) x every subset of pre-stored blocks, factored as A(what) x B(depth) with two 'how' settings, A x C(how) with two depth settings; plus a boundary sweep on chains of 5-6 (quick) / 5-8 (thorough) ads: every segment size 1..L+1 x every depth limit 1..L+1 of each kind x stop {none, oldest, second-oldest} x entry point x {the harness's own hook, the library's MakeGeneralBlockHook} choosing the next segment; entries chains: M x start x {SyncEntries, SyncOneEntry, SyncHAMTEntries} x depth limits x segment size x pre-stored subsets; the all-links entry point also on a DAG with fan-out (2 spine blocks with 2 leaves each) x 5 segment sizes x all 64 pre-stored subsets; two entries syncs in a row on one subscriber, the first with a per-call depth limit, the second without or with another one. Every configuration runs the real subscriber and publisher and is compared with an integer reference model. states = distinct base configurations; transitions = hook calls + requests observed; traces = executions.",
 		"reference model is the oracle (trusted; written from the statement)",
 		"two combinations whose depth limit the documentation leaves open (resync without stop on a known publisher with FirstSyncDepth set; explicit stop on a never-synced publisher with FirstSyncDepth set) are accepted under either reading",
 		"the block hook decodes each block and names its chain link as the next segment's CID, as the segmented-sync API requires",
@@ -547,6 +547,7 @@ func TestCheck(t *testing.T) {
 	historySweep(t, r, thorough)
 	checkEntries(t, r, maxL)
 	checkAllLinksTree(t, r, 2)
+	checkEntriesTwice(t, r, 4)
 	t.Logf("violations: %d", r.Violations())
 }
 
@@ -765,6 +766,72 @@ func checkAllLinksTree(t *testing.T, r *vp.Recorder, n int) {
 					}
 				}
 				r.Outcome("tree-ok")
+			}
+		}
+	}
+}
+
+// checkEntriesTwice: two entries syncs on ONE subscriber, the first with a
+// per-call depth limit, the second without: "the depth limit that applies" to
+// the second is the subscriber's own, whatever an earlier call was given.
+func checkEntriesTwice(t *testing.T, r *vp.Recorder, M int) {
+	for _, de := range []int64{0, 2, 3} {
+		for _, d1 := range []int64{-1, 1, 2, int64(M)} {
+			for _, fn2 := range []string{"entries", "entries-scoped-again"} {
+				key := fmt.Sprintf("ent|two-calls|M%d|De%d|first-scoped%d|second=%s", M, de, d1, fn2)
+				if !r.Mine(key) {
+					continue
+				}
+				r.Eval(key, true)
+				limit := func(d int64) int {
+					if d <= 0 || d > int64(M) {
+						return M
+					}
+					return int(d)
+				}
+				want1 := limit(d1)
+				want2 := limit(de)
+				if fn2 == "entries-scoped-again" {
+					want2 = limit(1)
+				}
+				var got1, got2 int
+				var err1, err2 error
+				var panicked string
+				syncfx.Bubble(t, func(t *testing.T) {
+					w := syncfx.NewWorld()
+					defer w.Close()
+					p := w.AddPub(fixture.Key("ed25519", 0), true)
+					ch := syncfx.BuildEntryChain(p.Src, M, syncfx.DefaultProto, "c01e2")
+					sub := w.NewSubscriber(dagsync.EntriesDepthLimit(de))
+					ctx := context.Background()
+					if pn, pm := vp.Guard(func() {
+						err1 = sub.SyncEntries(ctx, p.AddrInfo(), ch.Head(), dagsync.ScopedDepthLimit(d1))
+						synctest.Wait()
+						got1 = len(w.HookLog())
+						w.ResetHooks()
+						if fn2 == "entries" {
+							err2 = sub.SyncEntries(ctx, p.AddrInfo(), ch.Head())
+						} else {
+							err2 = sub.SyncEntries(ctx, p.AddrInfo(), ch.Head(), dagsync.ScopedDepthLimit(1))
+						}
+						synctest.Wait()
+						got2 = len(w.HookLog())
+					}); pn {
+						panicked = pm
+					}
+				})
+				switch {
+				case panicked != "":
+					r.Violation("ent:panic:two-calls", key, firstLine(panicked), nil)
+				case err1 != nil || err2 != nil:
+					r.Violation("ent:sync-error:two-calls", key, fmt.Sprint(err1, err2), nil)
+				case got1 != want1:
+					r.Violation("ent:hooks:two-calls:first", key, fmt.Sprintf("first call (per-call limit %d, subscriber limit %d) reported %d blocks, want %d", d1, de, got1, want1), nil)
+				case got2 != want2:
+					r.Violation("ent:hooks:two-calls:depth-limit-of-an-earlier-call-applied", key, fmt.Sprintf("second call on the same subscriber (subscriber limit %d; the first call had the per-call limit %d) reported %d blocks, want %d", de, d1, got2, want2), nil)
+				default:
+					r.Outcome("two-calls-ok")
+				}
 			}
 		}
 	}
